@@ -172,6 +172,78 @@ func probeForgotten(kind string, setPID bool) (clause, note string) {
 	return "", ""
 }
 
+// slowNL: a transport on which every datagram becomes readable only after `eagains` transient failures (the reader
+// sleeps 50 ms after each), and on which `events` unsolicited audit records precede the acknowledgement of the request.
+type slowNL struct {
+	seq     uint32
+	script  [][]byte
+	eagains int
+	left    int
+}
+
+func (f *slowNL) Send(msg syscall.NetlinkMessage) (uint32, error) {
+	f.seq++
+	return f.seq, nil
+}
+
+func (f *slowNL) Receive(nonBlocking bool, p libaudit.NetlinkParser) ([]syscall.NetlinkMessage, error) {
+	if len(f.script) == 0 {
+		return nil, errors.New("probe transport: nothing left to receive")
+	}
+	if f.left > 0 {
+		f.left--
+		return nil, syscall.EAGAIN
+	}
+	b := f.script[0]
+	f.script = f.script[1:]
+	f.left = f.eagains
+	return p(b)
+}
+
+func (f *slowNL) Close() error { return nil }
+
+// probeLongWait: one request whose acknowledgement (errno 0) is preceded by `events` unsolicited records, every
+// datagram readable only after nine transient failures: nothing in that is a reason to report a failure, however long
+// it takes (events × 9 × 50 ms).
+func probeLongWait(events int, get bool) string {
+	f := &slowNL{eagains: 9, left: 9}
+	for i := 0; i < events; i++ {
+		body := []byte(fmt.Sprintf("audit(1700000000.%03d:%d): pid=1 uid=0", i%1000, 100+i))
+		b := make([]byte, 16+len(body))
+		binary.LittleEndian.PutUint32(b[0:], uint32(len(b)))
+		binary.LittleEndian.PutUint16(b[4:], 1300)
+		copy(b[16:], body)
+		f.script = append(f.script, b)
+	}
+	ack := make([]byte, 36)
+	binary.LittleEndian.PutUint32(ack[0:], 36)
+	binary.LittleEndian.PutUint16(ack[4:], syscall.NLMSG_ERROR)
+	binary.LittleEndian.PutUint32(ack[8:], 1)
+	binary.LittleEndian.PutUint32(ack[20:], 60)
+	binary.LittleEndian.PutUint16(ack[24:], 1001)
+	binary.LittleEndian.PutUint32(ack[28:], 1)
+	f.script = append(f.script, ack)
+	cl := &libaudit.AuditClient{Netlink: f}
+	t0 := time.Now()
+	if get {
+		st := make([]byte, 16+40)
+		binary.LittleEndian.PutUint32(st[0:], uint32(len(st)))
+		binary.LittleEndian.PutUint16(st[4:], 1000)
+		binary.LittleEndian.PutUint32(st[8:], 1)
+		binary.LittleEndian.PutUint32(st[16+4:], 1) // enabled
+		f.script = append(f.script, st)
+		got, err := cl.GetStatus()
+		if err != nil || got == nil || got.Enabled != 1 {
+			return fmt.Sprintf("C08: GetStatus whose acknowledgement (errno 0) and data followed %d unsolicited records, every datagram after nine transient failures (%v in all), returned %v, %v", events, time.Since(t0).Round(100*time.Millisecond), got, err)
+		}
+		return ""
+	}
+	if err := cl.SetEnabled(true, libaudit.WaitForReply); err != nil {
+		return fmt.Sprintf("C08: SetEnabled whose acknowledgement (errno 0) followed %d unsolicited records, every datagram after nine transient failures (%v in all), returned %v", events, time.Since(t0).Round(100*time.Millisecond), err)
+	}
+	return ""
+}
+
 func runClientProbes(ctx *Ctx) {
 	res := ctx.Res
 	own := func(cl string) bool { return ownClause(cl, ctx.Prop) }
@@ -184,6 +256,29 @@ func runClientProbes(ctx *Ctx) {
 			res.Hist("probe: many pending acknowledgements")
 			if cl != "" && own(cl) {
 				res.Violate(common.Violation{Kind: "monitor", Clause: cl, Input: in})
+			}
+		}
+	}
+	if ctx.Prop == "C08" {
+		// one wait of several seconds (thorough: more than half a minute) that is nothing but skipped records and
+		// transient failures within the bound
+		evs := []int{13}
+		if ctx.Thorough() {
+			evs = []int{13, 70}
+		}
+		for _, n := range evs {
+			for _, get := range []bool{false, true} {
+				if get && n > 13 {
+					continue
+				}
+				in := map[string]interface{}{"kind": "probe-long-wait", "events": n, "get_status": get}
+				guardEnter(in)
+				cl := probeLongWait(n, get)
+				guardLeave()
+				res.Hist("probe: a wait of several seconds through records and transient failures")
+				if cl != "" {
+					res.Violate(common.Violation{Kind: "monitor", Clause: cl, Input: in})
+				}
 			}
 		}
 	}
@@ -225,6 +320,10 @@ func replayClientProbe(in map[string]interface{}) bool {
 	case "probe-many-pending":
 		n, _ := in["requests"].(float64)
 		fmt.Printf("%d NoWait requests, then the waits: %q (empty = as stated)\n", int(n), probeManyPending(int(n)))
+	case "probe-long-wait":
+		n, _ := in["events"].(float64)
+		g, _ := in["get_status"].(bool)
+		fmt.Printf("%d unsolicited records before the acknowledgement, nine transient failures before every datagram (GetStatus: %v): %q (empty = the kernel's verdict was reported)\n", int(n), g, probeLongWait(int(n), g))
 	case "probe-forgotten-client":
 		k, _ := in["close_returns"].(string)
 		p, _ := in["set_pid"].(bool)
